@@ -590,6 +590,11 @@ class CtxAwareTransformer(NodeTransformer):
                     newnode.max_col = node.max_col
             return newnode
         if self.is_in_scope(node) or isinstance(node.value, Lambda):
+            # an expression statement is not descended into, so record the
+            # names a walrus inside it binds (``print(x := 1)``)
+            for sub in walk(node.value):
+                if isinstance(sub, NamedExpr) and isinstance(sub.target, Name):
+                    self.ctxadd(sub.target.id)
             return node
         else:
             newnode = self.try_subproc_toks(node)
